@@ -81,6 +81,10 @@ struct InterpreterEnv : public ScriptExecutionEnvironment {
     std::vector<stack_type> altstack_history;
     std::vector<CScript::const_iterator> pc_history;
     std::vector<int> nOpCount_history;
+    std::vector<ConditionStack> vfExec_history;
+    std::vector<CScript::const_iterator> pbegincodehash_history;
+    std::vector<ScriptExecutionData> execdata_history;
+    std::vector<uint32_t> opcode_pos_history;
     std::vector<CScript> script_history;
     const CScript& scriptIn;
     int curr_op_seq;
